@@ -16,6 +16,27 @@ class AnalysisBroken(Exception):
     """the analysis cannot interpret what it needs: exit 2, neither pass nor violation"""
 
 
+def _norm_type(t):
+    return ' '.join((t or '').replace('struct ', '').replace('const ', '').replace('_Bool', 'bool').split()).replace(' *', '*')
+
+
+def require_signature(unit, fname, params, ret=None):
+    """a rule that models the CONTRACT of a function (which parameter carries what, how the result comes back) is only entitled to a verdict
+    while the function still has the interface the model was written for: anything else (a behaviour-preserving change of the signature
+    included) is an anchor that moved -> AnalysisBroken (exit 2), never a violation"""
+    f = unit.functions.get(fname) or getattr(unit, 'fdecls', {}).get(fname)
+    if f is None:
+        raise AnalysisBroken('anchor %s vanished' % fname)
+    got = [_norm_type(p.dtype or p.type) for p in unit.params(fname)]
+    want = [_norm_type(t) for t in params]
+    if got != want:
+        raise AnalysisBroken('the interface of %s() changed: parameters (%s), the rule models (%s)' % (fname, ', '.join(got), ', '.join(want)))
+    if ret is not None:
+        ft = _norm_type((f.dtype or f.type or '').split('(')[0])
+        if ft != _norm_type(ret):
+            raise AnalysisBroken('the interface of %s() changed: it returns %s, the rule models %s' % (fname, ft, _norm_type(ret)))
+
+
 def scratch_dir():
     base = os.environ.get('VERIF_SCRATCH')
     if base:
